@@ -326,4 +326,9 @@ def run(ctx):
         stage(ctx, "poly44", "PolygonGen", PGEN % (4, 4, 6), "polygon", 4)
         stage(ctx, "poly53", "PolygonGen", PGEN % (5, 3, 6), "polygon", 2, sample=8000)
         stage(ctx, "regions", "RegionGen", RGEN % 2, "region", 0)
+    # thin spikes with sides that bend by 1e-1 .. 1e-7 rad (aggregates computed by the harness, ThinJudge)
+    import solids
+    solids.judge_stage(ctx, "thin-spikes", ["c14-thin", "quick=%d" % (1 if quick else 0)],
+                       {"terminates", "count", "verts", "clockwise", "area"}, judge="tri/ThinJudge",
+                       keyfn=lambda rec, clause: "%s:thin:%s" % (rec["site"], clause))
     ctx.extra["exhaustive"] = True
